@@ -328,6 +328,7 @@ for _o in ["clone"]:
     OP_KLASS[_o] = "KClone"
 OP_KLASS["like"] = "KCreate"
 OP_KLASS["from_dense"] = "KFromDense"
+OP_KLASS["from_cores"] = "KFromDense"      # keeps the caller's arrays (not the caller's lists)
 for _o in ["add", "sub", "mul", "scalar_mul", "scalar_add", "neg", "div", "logic", "reduce"]:
     OP_KLASS[_o] = "KArith"
 for _o in ["round_tt_copy", "round_tucker_copy", "round_copy"]:
@@ -645,7 +646,36 @@ def _(c):
             Ut = c.arr("ttm matrix(T)", Us[0].t().contiguous())
             return tn.ttm(c.a, Ut, dim=dims[0], transpose=True)
         return tn.ttm(c.a, Us[0], dim=dims[0])
+    if c.r.random() < 0.3:
+        return tn.ttm(c.a, c.lst("ttm factor list", Us), dim=dims_array(c, dims, N))
     return tn.ttm(c.a, c.lst("ttm factor list", Us), dim=dims)
+
+
+def dims_array(c, dims, N):
+    """the same modes as a torch / NumPy integer array with negative entries (an argument array like any other)"""
+    neg = [d - N for d in dims]
+    return c.arr("dims array", torch.tensor(neg) if c.r.random() < 0.6 else np.array(neg))
+
+
+@op("from_cores", "new")
+def _(c):
+    """Tensor(list of cores, Us=list of factors): the lists stay the caller's (checked at every later step)"""
+    cores = c.lst("constructor core list", [x.clone() for x in c.a.cores])
+    Us = c.lst("constructor factor list", [None if U is None else U.clone() for U in c.a.Us])
+    return tn.Tensor(cores, Us=Us)
+
+
+@op("als_completion", "new")
+def _(c):
+    """completion started from an operand as the initial solution x0"""
+    a = c.a
+    s = shp(a)
+    if any(x.dim() != 3 for x in a.cores) or any(U is not None for U in a.Us) or int(np.prod(s)) > 120 or max_rank(a) > 4:
+        raise Skip()
+    grid = list(itertools.product(*[range(x) for x in s]))
+    X = c.arr("sample coordinates", torch.tensor(grid))
+    y = c.arr("sample values", torch.tensor([c.r.uniform(-1, 1) for _ in grid]))
+    return tn.als_completion(X, y, ranks_tt=2, x0=a, niter=2, verbose=False)
 
 
 @op("sum_dim", "new")
@@ -653,6 +683,8 @@ def _(c):
     N = c.a.dim()
     dims = rdims(c.r, N, c)
     kd = c.r.random() < 0.5 or len(dims) == N
+    if c.r.random() < 0.25:
+        return tn.sum(c.a, dim=dims_array(c, dims, N), keepdim=kd)
     return tn.sum(c.a, dim=dims if c.r.random() < 0.7 or len(dims) > 1 else dims[0], keepdim=kd)
 
 
@@ -663,6 +695,8 @@ def _(c):
     kd = c.r.random() < 0.5 or len(dims) == N
     if c.r.random() < 0.5:
         return tn.mean(c.a, dim=dims, marginals=rmarginals(c.r, c.a, c, dims), keepdim=kd)
+    if c.r.random() < 0.3:
+        return tn.mean(c.a, dim=dims_array(c, dims, N), keepdim=kd)
     return tn.mean(c.a, dim=dims, keepdim=kd)
 
 
@@ -1035,11 +1069,11 @@ VAL_OPS = sorted(k for k, v in OPCLASS.items() if v == "val")
 INPLACE_OPS = sorted(k for k, v in OPCLASS.items() if v == "inplace")
 for _o, _c in OPCLASS.items():
     OP_KLASS.setdefault(_o, "KMetric" if _c == "val" else "KCopyTool")
-SLOW_OPS = {"cross", "elementwise", "minimum", "moments", "from_dense", "reduce"}
+SLOW_OPS = {"cross", "elementwise", "minimum", "moments", "from_dense", "reduce", "als_completion"}
 # derivations whose result is expected to share storage / be closely related to the source
 DERIVE_OPS = ["getitem_slices", "getitem", "transpose", "clone", "tt", "decompress", "unsqueeze", "squeeze", "add", "sub",
               "mul", "scalar_mul", "scalar_add", "neg", "flip", "unbind", "sum_dim", "ttm", "cat", "repeat", "mask",
-              "round_tt_copy", "round_tucker_copy", "anova", "cumsum", "pad", "dot_partial"]
+              "round_tt_copy", "round_tucker_copy", "anova", "cumsum", "pad", "dot_partial", "from_cores", "from_cores"]
 
 
 class Ctx:
@@ -1184,7 +1218,8 @@ class Prop:
             mk(pool, [step(o, rng.randrange(2), rng.randrange(2)) for o in
                       ["logic", "logic_queries", "sobol", "mask", "truncate_anova", "anova", "mean_dimension", "logic_queries"]], "logic")
         # ---- (iii) view chains: storage-sharing derivations of derivations, in-place methods anywhere in the family
-        views = ["getitem_slices", "transpose", "unsqueeze", "squeeze", "decompress", "getitem", "unbind", "clone", "flip", "tt"]
+        views = ["getitem_slices", "transpose", "unsqueeze", "squeeze", "decompress", "getitem", "unbind", "clone", "flip", "tt",
+                 "from_cores"]
         for _ in range(250 if quick else 2000):
             N = rng.randint(1, 3)
             pool = same_shape_pool(1, N, plain(N) if rng.random() < 0.4 else None)
@@ -1199,6 +1234,15 @@ class Prop:
                 else:
                     hist.append(step(rng.choice(["torch", "norm", "sum", "info", "dot"]), rng.randrange(nslots), rng.randrange(nslots)))
             mk(pool, hist, "view-chain")
+        # ---- (iii-b) completion started from an operand (x0), then in-place / pure steps around it
+        for _ in range(40 if quick else 300):
+            N = rng.randint(2, 3)
+            pool = same_shape_pool(rng.randint(1, 2), N, [("tt", False)] * N, maxr=2)
+            hist = [step("als_completion", 0)]
+            for _s in range(rng.randint(1, 4)):
+                nslots = len(pool) + sum(OPCLASS[h["op"]] == "new" for h in hist)
+                hist.append(step(rng.choice(INPLACE_OPS + ["norm", "als_completion"]), rng.randrange(nslots), rng.randrange(nslots)))
+            mk(pool, hist, "completion")
         # ---- (iv) random histories
         light = [o for o in OPS if o not in SLOW_OPS]
         for _ in range(1000 if quick else 6000):
